@@ -476,3 +476,142 @@ Proof.
   exists m; (split; [exact Hm|]);
   unfold holds_lock; apply holds_locked; try apply Htab; exact Hl.
 Qed.
+
+Lemma locked_None_holds c k l : locked c l = None -> holds c k l = false.
+Proof.
+  intros Hl. apply not_true_is_false. intros Hh. unfold holds in Hh.
+  apply existsb_exists in Hh. destruct Hh as [[a k'] [Hin He]]. simpl in He.
+  apply andb_true_iff in He. destruct He as [Ha _]. apply Nat.eqb_eq in Ha. subst a.
+  eapply locked_None_not_In; eassumption.
+Qed.
+
+(* ... and released by Close: a call that has returned holds nothing anywhere, whatever
+   descriptors child processes inherited in the meantime *)
+Theorem released_by_close cfg f s c r :
+  wf_cfg cfg -> reachable cfg f s -> returned s c r ->
+  forall i k, holds c k (ltab (st_os s) i) = false.
+Proof.
+  intros Hwf Hr Hret i k. pose proof (inv06_of_reachable _ _ _ Hwf Hr) as [_ Hph Hown].
+  apply locked_None_holds. destruct (Nat.eq_dec i (c_ino (cfg c))) as [->|Hi]; [|now apply Hown].
+  specialize (Hph c). unfold cphase in Hph. red in Hret. rewrite Hret in Hph.
+  assert (forall fl b p o l st, phase fl b p o l st -> is_ret p = true -> l = None) as Hgen.
+  { destruct 1; try reflexivity; unfold client_prog, open_file_prog, lock_stage, flock_step,
+      trunc_fail_prog, after_open, close_prog; simpl; try discriminate.
+    - unfold trunc_stage. destruct (has_flag _ _); simpl; discriminate.
+    - destruct H0; simpl; discriminate. }
+  eapply Hgen; [exact Hph|reflexivity].
+Qed.
+
+Definition first_op (p : prog) : option op :=
+  match p with Ret _ => None | Do o _ | Retry o _ => Some o end.
+
+Lemma phase_io_locked fl b p o l st :
+  phase fl b p o l st ->
+  (exists x, first_op p = Some x /\ is_io x = true) ->
+  exists m, lock_mode_of_flags fl = Some m /\ l = Some m.
+Proof.
+  destruct 1; eauto; unfold client_prog, open_file_prog, lock_stage, flock_step; simpl;
+    intros [y [Hy Hio]]; try discriminate Hy; injection Hy as <-; discriminate Hio.
+Qed.
+
+(* every read, write or truncate of the file happens while the client's lock is in the table;
+   in particular the ftruncate that implements O_TRUNC comes after the successful flock *)
+Theorem io_under_lock cfg f s c o :
+  wf_cfg cfg -> reachable cfg f s ->
+  first_op (progs s c) = Some o -> is_io o = true ->
+  exists m, mode_of cfg c = Some m /\ holds_lock cfg s c m.
+Proof.
+  intros Hwf Hr Hop Hio. pose proof (inv06_of_reachable _ _ _ Hwf Hr) as [Htab Hph _].
+  specialize (Hph c). unfold cphase in Hph.
+  destruct (phase_io_locked _ _ _ _ _ _ Hph) as [m [Hm Hl]]; [eauto|].
+  exists m. split; [exact Hm|]. unfold holds_lock. apply holds_locked; [apply Htab|exact Hl].
+Qed.
+
+Lemma phase_open_no_trunc fl b p o l st fl' :
+  phase fl b p o l st -> first_op p = Some (OOpen fl') -> has_flag fl' sys_O_TRUNC = false.
+Proof.
+  destruct 1; unfold client_prog, open_file_prog, lock_stage, flock_step, trunc_fail_prog,
+    after_open, close_prog; simpl; try discriminate.
+  - intros [= <-]. apply strip_has_flag. discriminate.
+  - unfold trunc_stage. destruct (has_flag _ _); simpl; discriminate.
+  - destruct H0 as [x|o' k Hio _]; simpl; [discriminate|].
+    intros [= ->]. discriminate Hio.
+Qed.
+
+(* no open of any call carries O_TRUNC, whatever flags the caller passed *)
+Theorem open_never_truncates cfg f s c fl' :
+  wf_cfg cfg -> reachable cfg f s ->
+  first_op (progs s c) = Some (OOpen fl') -> has_flag fl' sys_O_TRUNC = false.
+Proof.
+  intros Hwf Hr Hop. pose proof (inv06_of_reachable _ _ _ Hwf Hr) as [_ Hph _].
+  eapply phase_open_no_trunc; [apply (Hph c)|exact Hop].
+Qed.
+
+Theorem no_truncate_before_lock cfg f s c :
+  wf_cfg cfg -> reachable cfg f s ->
+  (forall fl', first_op (progs s c) = Some (OOpen fl') -> has_flag fl' sys_O_TRUNC = false) /\
+  (forall n, first_op (progs s c) = Some (OFtruncate n) ->
+             exists m, mode_of cfg c = Some m /\ holds_lock cfg s c m).
+Proof.
+  intros Hwf Hr. split.
+  - intros fl'. now apply (open_never_truncates cfg f).
+  - intros n Hop. now apply (io_under_lock cfg f s c (OFtruncate n)).
+Qed.
+
+(* the static form: the flags openFile hands to the kernel, for every caller flag word *)
+Theorem open_flags_stripped flags :
+  has_flag (strip flags openfile_strip_mask) sys_O_TRUNC = false /\
+  accmode (strip flags openfile_strip_mask) = accmode flags.
+Proof.
+  split; [apply strip_has_flag; discriminate|].
+  unfold accmode. apply strip_keeps_disjoint. reflexivity.
+Qed.
+
+(* ------------------------------------------------------------------ examples (non-vacuity) *)
+
+Definition ex_cfg (c : nat) : client :=
+  match c with
+  | 0 => {| c_ino := 0; c_call := CWrite [x61; x62; x63] |}
+  | 1 => {| c_ino := 0; c_call := CRead |}
+  | 2 => {| c_ino := 0; c_call := CRead |}
+  | 3 => {| c_ino := 0; c_call := CTransform (fun b => Some (b ++ [x7a])) |}
+  | _ => {| c_ino := 1; c_call := CMutex |}
+  end.
+
+Example ex_cfg_wf : wf_cfg ex_cfg.
+Proof.
+  intros c. unfold ex_cfg, wf_call. destruct c as [|[|[|[|c]]]]; cbn [c_call body_of_call].
+  - apply io_only_write_body.
+  - apply io_only_read.
+  - apply io_only_read.
+  - apply io_only_transform.
+  - constructor.
+Qed.
+
+Definition ex_init := init_state ex_cfg (fun _ => Some [x30]).
+Definition runs (c n : nat) : list event := repeat (EvRun c) n.
+
+(* a two-writer schedule: the Write is inside its critical section, the Transform has opened
+   the file and is blocked on flock (even when interrupted), the readers too *)
+Example ex_writer_in_cs :
+  let s := run ex_cfg ex_init (runs 0 4 ++ runs 3 3 ++ [EvEintr 3] ++ runs 1 3 ++ [EvDup 0]) in
+  status s 0 = SInCS /\ status s 3 = SIdle /\ status s 1 = SIdle /\
+  ltab (st_os s) 0 = [(0, LEx)] /\ isopen (fds (st_os s) 3) = true.
+Proof. vm_compute. repeat split. Qed.
+
+(* two readers share the lock; the writer waits *)
+Example ex_readers_share :
+  let s := run ex_cfg ex_init (runs 1 3 ++ runs 2 3 ++ runs 0 5) in
+  status s 1 = SInCS /\ status s 2 = SInCS /\ status s 0 = SIdle /\
+  ltab (st_os s) 0 = [(2, LSh); (1, LSh)].
+Proof. vm_compute. repeat split. Qed.
+
+(* everybody finishes; the child that inherited the writer's descriptor exits last: the lock
+   was nevertheless released by the explicit unlock of Close *)
+Example ex_all_done :
+  let s := run ex_cfg ex_init
+             (runs 0 4 ++ [EvDup 0] ++ runs 0 4 ++ runs 3 9 ++ runs 1 7 ++ runs 2 7 ++ [EvDupClose 0]) in
+  map (fun c => is_ret (progs s c)) [0; 1; 2; 3] = [true; true; true; true] /\
+  ltab (st_os s) 0 = [] /\ files (st_os s) 0 = Some [x61; x62; x63; x7a] /\
+  progs s 1 = Ret (ResData [x61; x62; x63; x7a]).
+Proof. vm_compute. repeat split. Qed.
